@@ -20,57 +20,88 @@
 (*                        stored semi-major axis must come out as value v     *)
 (*   ClearSpecific(s, k)  orbit.clear_state(clear_all=False, clear_specific=s)*)
 (*   ClearAll             orbit.clear_state()                                 *)
-(* The tidal host's signature stands for the orbit of whichever moon is       *)
-(* currently raising tides on it (world_signature_to_index).                  *)
+(*   ReAdd(m)             orbit.add_tidal_world(m) for a moon that is ALREADY  *)
+(*                        in the orbit (constant AllowReAdd; the code only     *)
+(*                        warns).  As found: a second slot is appended for it,  *)
+(*                        the name table moves to the new slot, the instance    *)
+(*                        table keeps the old one, and the configuration's      *)
+(*                        orbit is written through the instance, i.e. into the  *)
+(*                        OLD slot; clear_state() walks all_objects (unique     *)
+(*                        instances) and never reaches the new slot.  A named   *)
+(*                        deviation: NoDuplicates / LookupAgree are expected    *)
+(*                        violations of OrbitRegistry_asfound_readd.cfg.       *)
+(* State is kept per SLOT (index into tidal_objects), as the code keeps it,    *)
+(* with the two look-up tables beside it.  The tidal host's signature stands   *)
+(* for the orbit of whichever moon is currently raising tides on it             *)
+(* (world_signature_to_index, resolved through the raiser's INSTANCE).          *)
 (***************************************************************************)
 EXTENDS Integers, Sequences, FiniteSets, TLC
 
-CONSTANTS Moons, NVals, MaxSteps
+CONSTANTS Moons, NVals, MaxSteps, AllowReAdd, MaxSlots
 
-VARIABLES order,     \* moons in tidal_objects[1..] (index 0 is the host)
+VARIABLES order,     \* tidal_objects[1..] (index 0 is the host): one moon per slot
+          byInst,    \* all_tidal_world_orbit_index_by_instance: [moon -> slot | 0]
+          byName,    \* all_tidal_world_orbit_index_by_name (all three spellings move together)
           raiser,    \* the host's tide raiser ("none" before the first moon)
-          ecc, sma,  \* [moon -> value id | NoVal]: the orbit's storage
+          ecc, sma,  \* Seq(value id | NoVal) by slot: the orbit's storage lists
           last, steps
-vars == <<order, raiser, ecc, sma, last, steps>>
-view == <<order, raiser, ecc, sma>>
+vars == <<order, byInst, byName, raiser, ecc, sma, last, steps>>
+view == <<order, byInst, byName, raiser, ecc, sma>>
 
 NoVal == -1
 Vals == 0..(NVals - 1)
 Kinds == {"instance", "name", "lower", "title", "index"}
 Added == {order[i] : i \in 1..Len(order)}
-IndexOf(m) == CHOOSE i \in 1..Len(order) : order[i] = m
-\* world_signature_to_index: the host's signature resolves to its tide raiser
-Target(s) == IF s = "host" THEN raiser ELSE s
+Slots == 1..Len(order)
+\* world_signature_to_index.  "index" is the first slot that holds the world (the harness passes tidal_objects.index(world)),
+\* which is the slot the instance table points to
+SlotOf(m, k) == IF k \in {"name", "lower", "title"} THEN byName[m] ELSE byInst[m]
+\* the host's signature resolves to its tide raiser, through the raiser's instance
+Target(s, k) == IF s = "host" THEN byInst[raiser] ELSE SlotOf(s, k)
 
-Init == /\ order = <<>> /\ raiser = "none" /\ ecc = [m \in Moons |-> NoVal] /\ sma = [m \in Moons |-> NoVal]
+Init == /\ order = <<>> /\ raiser = "none" /\ ecc = <<>> /\ sma = <<>>
+        /\ byInst = [m \in Moons |-> 0] /\ byName = [m \in Moons |-> 0]
         /\ last = <<"Init">> /\ steps = 0
 \* MaxSteps = 0: unbounded (exhaustive runs under VIEW view)
 Step(l) == (MaxSteps = 0 \/ steps < MaxSteps) /\ steps' = (IF MaxSteps = 0 THEN 0 ELSE steps + 1) /\ last' = l
 
 AddMoon(m) ==
-  /\ m \notin Added /\ Step(<<"AddMoon", m>>)
+  /\ m \notin Added /\ Len(order) < MaxSlots /\ Step(<<"AddMoon", m>>)
   /\ order' = Append(order, m)
-  /\ ecc' = [ecc EXCEPT ![m] = 0] /\ sma' = [sma EXCEPT ![m] = 0]      \* id 0: the configuration's orbit
+  /\ byInst' = [byInst EXCEPT ![m] = Len(order) + 1] /\ byName' = [byName EXCEPT ![m] = Len(order) + 1]
+  /\ ecc' = Append(ecc, 0) /\ sma' = Append(sma, 0)                      \* id 0: the configuration's orbit
   /\ raiser' = IF raiser = "none" THEN m ELSE raiser
+ReAdd(m) ==
+  /\ AllowReAdd /\ m \in Added /\ Len(order) < MaxSlots /\ Step(<<"ReAdd", m>>)
+  /\ order' = Append(order, m)
+  /\ byName' = [byName EXCEPT ![m] = Len(order) + 1] /\ UNCHANGED byInst
+  \* placeholders appended for the new slot; the configuration's orbit goes where the INSTANCE resolves to
+  /\ ecc' = Append([ecc EXCEPT ![byInst[m]] = 0], NoVal) /\ sma' = Append([sma EXCEPT ![byInst[m]] = 0], NoVal)
+  /\ UNCHANGED raiser
 SetRaiser(m, k) ==
   /\ m \in Added /\ Step(<<"SetRaiser", m, k>>)
-  /\ raiser' = m /\ UNCHANGED <<order, ecc, sma>>
+  /\ raiser' = order[SlotOf(m, k)] /\ UNCHANGED <<order, byInst, byName, ecc, sma>>
 Sigs == Added \cup (IF raiser # "none" THEN {"host"} ELSE {})
 SetE(s, k, v) ==
   /\ s \in Sigs /\ Step(<<"SetE", s, k, v>>)
-  /\ ecc' = [ecc EXCEPT ![Target(s)] = v] /\ UNCHANGED <<order, raiser, sma>>
+  /\ ecc' = [ecc EXCEPT ![Target(s, k)] = v] /\ UNCHANGED <<order, byInst, byName, raiser, sma>>
 Vias == {"a", "n", "P", "state_a", "state_n", "state_P"}
 SetA(s, k, v, via) ==
   /\ s \in Sigs /\ Step(<<"SetA", s, k, v, via>>)
-  /\ sma' = [sma EXCEPT ![Target(s)] = v] /\ UNCHANGED <<order, raiser, ecc>>
+  /\ sma' = [sma EXCEPT ![Target(s, k)] = v] /\ UNCHANGED <<order, byInst, byName, raiser, ecc>>
 ClearSpecific(s, k) ==
   /\ s \in Sigs /\ Step(<<"ClearSpecific", s, k>>)
-  /\ ecc' = [ecc EXCEPT ![Target(s)] = NoVal] /\ sma' = [sma EXCEPT ![Target(s)] = NoVal] /\ UNCHANGED <<order, raiser>>
+  /\ ecc' = [ecc EXCEPT ![Target(s, k)] = NoVal] /\ sma' = [sma EXCEPT ![Target(s, k)] = NoVal]
+  /\ UNCHANGED <<order, byInst, byName, raiser>>
+\* clear_state(): for every object of all_objects (unique instances), the slot its INSTANCE resolves to
+InstSlots == {byInst[m] : m \in Added}
 ClearAll ==
   /\ Added # {} /\ Step(<<"ClearAll">>)
-  /\ ecc' = [m \in Moons |-> NoVal] /\ sma' = [m \in Moons |-> NoVal] /\ UNCHANGED <<order, raiser>>
+  /\ ecc' = [i \in Slots |-> IF i \in InstSlots THEN NoVal ELSE ecc[i]]
+  /\ sma' = [i \in Slots |-> IF i \in InstSlots THEN NoVal ELSE sma[i]]
+  /\ UNCHANGED <<order, byInst, byName, raiser>>
 
-Next == \/ \E m \in Moons : AddMoon(m)
+Next == \/ \E m \in Moons : AddMoon(m) \/ ReAdd(m)
         \/ \E m \in Moons, k \in Kinds : SetRaiser(m, k)
         \/ \E s \in Moons \cup {"host"}, k \in Kinds, v \in Vals : SetE(s, k, v) \/ (\E via \in Vias : SetA(s, k, v, via))
         \/ \E s \in Moons \cup {"host"}, k \in Kinds : ClearSpecific(s, k)
@@ -78,17 +109,28 @@ Next == \/ \E m \in Moons : AddMoon(m)
 Spec == Init /\ [][Next]_vars
 
 (* ---- properties ---- *)
-TypeOK == /\ raiser \in Moons \cup {"none"} /\ \A m \in Moons : ecc[m] \in Vals \cup {NoVal} /\ sma[m] \in Vals \cup {NoVal}
+TypeOK == /\ raiser \in Moons \cup {"none"}
+          /\ \A i \in Slots : order[i] \in Moons /\ ecc[i] \in Vals \cup {NoVal} /\ sma[i] \in Vals \cup {NoVal}
+          /\ \A m \in Moons : byInst[m] \in 0..Len(order) /\ byName[m] \in 0..Len(order)
+\* the four storage lists and tidal_objects stay aligned (also with ReAdd)
+StorageAligned == Len(ecc) = Len(order) /\ Len(sma) = Len(order)
+\* both tables point at a slot that holds the world they are asked about (also with ReAdd)
+TablesPointHome == \A m \in Moons : (m \in Added <=> byInst[m] # 0) /\ (m \in Added <=> byName[m] # 0)
+                                    /\ (m \in Added => order[byInst[m]] = m /\ order[byName[m]] = m)
 \* a world's orbital index never changes once it is in the orbit
 IndexStable == [][\A i \in 1..Len(order) : order'[i] = order[i]]_vars
 NoDuplicates == Cardinality(Added) = Len(order)
+\* every form of signature resolves to the same slot (what a user means by "the world's orbit")
+LookupAgree == \A m \in Added : byInst[m] = byName[m]
 \* the raiser is a world of the orbit as soon as there is one
 RaiserAdded == (raiser = "none" /\ order = <<>>) \/ raiser \in Added
 \* nothing is stored for a world that is not in the orbit
-NothingForStrangers == \A m \in Moons \ Added : ecc[m] = NoVal /\ sma[m] = NoVal
-\* a setter or a clear touches exactly the world its signature resolves to
+NothingForStrangers == \A m \in Moons \ Added : byInst[m] = 0 /\ byName[m] = 0
+\* a setter or a clear touches exactly the slot its signature resolves to
 Isolation == [][last'[1] \in {"SetE", "SetA", "ClearSpecific"} =>
-                  \A m \in Moons : m # Target(last'[2]) => ecc'[m] = ecc[m] /\ sma'[m] = sma[m]]_vars
+                  \A i \in Slots : i # Target(last'[2], last'[3]) => ecc'[i] = ecc[i] /\ sma'[i] = sma[i]]_vars
 \* moving the raiser pointer changes nothing that is stored
-PointerOnly == [][last'[1] = "SetRaiser" => ecc' = ecc /\ sma' = sma]_vars
+PointerOnly == [][last'[1] = "SetRaiser" => ecc' = ecc /\ sma' = sma /\ byInst' = byInst /\ byName' = byName]_vars
+\* after clear_state() nothing is readable through an instance (through a name only if LookupAgree holds)
+ClearAllClearsInstances == [][last'[1] = "ClearAll" => \A m \in Added : ecc'[byInst[m]] = NoVal /\ sma'[byInst[m]] = NoVal]_vars
 =============================================================================
